@@ -20,6 +20,9 @@ type CodeWriter struct {
 // WriteString writes a string to the buffer
 func (cw *CodeWriter) WriteString(s string) {
 	cw.flushPending()
+	if len(s) > 0 {
+		cw.separateSigns(s[0])
+	}
 	cw.Builder.WriteString(s)
 	if cw.Mapper == nil {
 		return
@@ -30,6 +33,9 @@ func (cw *CodeWriter) WriteString(s string) {
 // WriteRune writes a rune to the buffer
 func (cw *CodeWriter) WriteRune(r rune) {
 	cw.flushPending()
+	if r == '+' || r == '-' {
+		cw.separateSigns(byte(r))
+	}
 	cw.Builder.WriteRune(r)
 	if cw.Mapper == nil {
 		return
@@ -38,6 +44,20 @@ func (cw *CodeWriter) WriteRune(r rune) {
 		cw.Mapper.AdvanceLine()
 	} else {
 		cw.Mapper.AdvanceColumn(1)
+	}
+}
+
+// separateSigns writes a space when a token starting with + or - would otherwise
+// touch the same sign: "a - -b" must not become "a--b", nor "a + ++b" "a+++b".
+func (cw *CodeWriter) separateSigns(next byte) {
+	if next != '+' && next != '-' {
+		return
+	}
+	if n := cw.Builder.Len(); n > 0 && cw.Builder.String()[n-1] == next {
+		cw.Builder.WriteByte(' ')
+		if cw.Mapper != nil {
+			cw.Mapper.AdvanceColumn(1)
+		}
 	}
 }
 
